@@ -88,7 +88,7 @@ def _vmct_limit(rec):
     if runs["vmct"].get("kind") != "exec-limit":
         return False
     # nothing but the call-threaded loop's outcome (and the resulting disagreement) was rejected
-    return all(w.endswith("_vmct") or w == "agree" for w in rec["_why"])
+    return all(w.endswith("_vmct") for w in rec["_why"])
 
 
 # ----------------------------------------------------------------------------
